@@ -2,7 +2,7 @@ import Ecal.Model.Bridge
 /-! Helper lemmas about `Ecal.Bridge` used by the C19 property theorems. -/
 namespace Ecal.Bridge
 
-variable {oob : IntKind → Num → Int}
+variable {oob : IntKind → Num → Int} {chk : Bool}
 
 /-! ### checkArg -/
 
@@ -57,28 +57,9 @@ theorem checkArg_nil {p : Ty} {v : Val} (h : checkArg oob p .nil = .accept v) : 
 
 /-! ### buildArgs -/
 
-theorem buildArgs_ok_length : ∀ {ps : List Ty} {as f : List Val},
-    buildArgs oob ps as = .ok f → f.length = as.length ∧ as.length ≤ ps.length := by
-  intro ps as
-  induction ps, as using buildArgs.induct (oob := oob) with
-  | case1 ps => intro f h; simp [buildArgs] at h; subst h; simp
-  | case2 a as => intro f h; simp [buildArgs] at h
-  | case3 p ps a as v hv vs hvs ih =>
-    intro f h
-    simp [buildArgs, hv, hvs] at h
-    subst h
-    have := ih hvs
-    simp; omega
-  | case4 p ps a as v hv hne ih =>
-    intro f h
-    simp [buildArgs, hv] at h
-    exact (hne f h).elim
-  | case5 p ps a as hv => intro f h; simp [buildArgs, hv] at h
-  | case6 p ps a as hv => intro f h; simp [buildArgs, hv] at h
-
 theorem buildArgs_ok_cons {p : Ty} {ps : List Ty} {a : Val} {as f : List Val}
-    (h : buildArgs oob (p :: ps) (a :: as) = .ok f) :
-    ∃ v vs, f = v :: vs ∧ checkArg oob p a = .accept v ∧ buildArgs oob ps as = .ok vs := by
+    (h : buildArgs chk oob (p :: ps) (a :: as) = .ok f) :
+    ∃ v vs, f = v :: vs ∧ checkArg oob p a = .accept v ∧ buildArgs chk oob ps as = .ok vs := by
   simp only [buildArgs] at h
   split at h
   · rename_i v hv
@@ -90,9 +71,31 @@ theorem buildArgs_ok_cons {p : Ty} {ps : List Ty} {a : Val} {as f : List Val}
   · simp at h
   · simp at h
 
+theorem buildArgs_nil_cons_ne_ok {a : Val} {as f : List Val} :
+    buildArgs chk oob [] (a :: as) ≠ .ok f := by
+  cases chk <;> simp [buildArgs]
+
+theorem buildArgs_ok_length : ∀ {ps : List Ty} {as f : List Val},
+    buildArgs chk oob ps as = .ok f → f.length = as.length ∧ as.length ≤ ps.length := by
+  intro ps
+  induction ps with
+  | nil =>
+    intro as f h
+    cases as with
+    | nil => simp [buildArgs] at h; subst h; simp
+    | cons a as => exact absurd h buildArgs_nil_cons_ne_ok
+  | cons p ps ih =>
+    intro as f h
+    cases as with
+    | nil => simp [buildArgs] at h; subst h; simp
+    | cons a as =>
+      obtain ⟨v, vs, rfl, _, hb⟩ := buildArgs_ok_cons h
+      have := ih hb
+      simp; omega
+
 /-- every accepted argument vector is positionwise compatible with the parameters -/
 theorem buildArgs_ok_compatible : ∀ {ps : List Ty} {as f : List Val},
-    buildArgs oob ps as = .ok f →
+    buildArgs chk oob ps as = .ok f →
     ∀ (i : Nat) p a, ps[i]? = some p → as[i]? = some a → compatible p a = true := by
   intro ps
   induction ps with
@@ -114,14 +117,14 @@ theorem buildArgs_ok_compatible : ∀ {ps : List Ty} {as f : List Val},
 
 /-- NULL arguments that get through the loop are still NULL (zero Values) for reflect -/
 theorem buildArgs_ok_nil_mem : ∀ {ps : List Ty} {as f : List Val},
-    buildArgs oob ps as = .ok f → Val.nil ∈ as → Val.nil ∈ f := by
+    buildArgs chk oob ps as = .ok f → Val.nil ∈ as → Val.nil ∈ f := by
   intro ps
   induction ps with
   | nil =>
     intro as f h hm
     cases as with
     | nil => simp at hm
-    | cons a as => simp [buildArgs] at h
+    | cons a as => exact absurd h buildArgs_nil_cons_ne_ok
   | cons p0 ps ih =>
     intro as f h hm
     cases as with
@@ -132,6 +135,29 @@ theorem buildArgs_ok_nil_mem : ∀ {ps : List Ty} {as f : List Val},
       rcases hm with rfl | hm
       · have := checkArg_nil hc; subst this; simp
       · have := ih hb hm; simp [this]
+
+/-- surplus arguments behind an acceptable prefix meet the explicit arity check -/
+theorem buildArgs_surplus : ∀ {ps : List Ty} {pre f : List Val} (extra : List Val),
+    buildArgs true oob ps pre = .ok f → pre.length = ps.length → extra ≠ [] →
+    buildArgs true oob ps (pre ++ extra) = .error .tooMany := by
+  intro ps
+  induction ps with
+  | nil =>
+    intro pre f extra _ hl hne
+    cases pre with
+    | nil => cases extra with
+      | nil => exact absurd rfl hne
+      | cons e es => simp [buildArgs]
+    | cons _ _ => simp at hl
+  | cons p ps ih =>
+    intro pre f extra hb hl hne
+    cases pre with
+    | nil => simp at hl
+    | cons a as =>
+      obtain ⟨v, vs, _, hc, hb'⟩ := buildArgs_ok_cons hb
+      simp at hl
+      have := ih extra hb' hl hne
+      simp [buildArgs, hc, this]
 
 /-! ### reflect.Call -/
 
@@ -206,7 +232,7 @@ theorem Num.isInt_ofInt (n : Int) (_h : n.natAbs ≤ 2 ^ 53) : (Num.fin n 0).IsI
   ⟨n, 0, rfl, Or.inl ⟨Int.le_refl 0, by simp⟩⟩
 
 /-- what the function receives for a numeric argument -/
-theorem buildArgs_numeric_exact : ∀ {ps : List Ty} {as f : List Val}, buildArgs oob ps as = .ok f →
+theorem buildArgs_numeric_exact : ∀ {ps : List Ty} {as f : List Val}, buildArgs chk oob ps as = .ok f →
     ∀ (i : Nat) (x : Num), as[i]? = some (.f64 x) →
       (∀ k n, ps[i]? = some (.int k) → x.IsInt n → k.inRange n = true → f[i]? = some (.int k n)) ∧
       (ps[i]? = some .f64 → f[i]? = some (.f64 x)) := by
